@@ -124,7 +124,8 @@ class MonitoredContainer(Generic[T], ABC):
         :param add_relation_to_the_graph: Whether to add the relation to the graph or not
         :return: Whether the value was added or not
         """
-        if value in self:
+        # by identity, like the symbol graph: an equal but distinct instance is another individual
+        if any(existing is value for existing in self):
             return False
         self._add_item(
             value,
